@@ -5,6 +5,7 @@ R-BOUNDS is modular: a small table of function CONTRACTS (preconditions on posit
 on the length; postconditions of results), filled by reading this repository, is verified from both sides:
 inside each function every obligation must follow from the contract, dominating guards and provenance;
 at each call site the callee's preconditions must be established the same way."""
+from . import core as _core
 from .core import walk, strip, term_str, component, const_int, STORE, foreign_expansion
 from .flowvp import FlowVP, canon
 from .rules_decl import PQ, DPQ, QUEUES, QNAME
@@ -271,6 +272,8 @@ class Facts:
 
     def add_fact(self, d, vals, is_else, all_vals):
         c = self.rb.c
+        while d[0] == "defat":      # a condition computed where a named boolean was assigned (`let ok = a > b; if ok ..`)
+            d = strip(d[2])
         # boolean condition: true iff edge value != 0
         truth = None
         if is_else and 0 in all_vals:
@@ -614,7 +617,7 @@ class RB:
             c = component(a)
             if c and c[0] in ("heap", "qp", "map"):
                 return True
-            if a[0] == "field" and a[2] in ("store", "pq"):
+            if a[0] == "field" and a[2] in _core.CARRIER:
                 return True
             return False
         c = component(t)
@@ -1114,6 +1117,25 @@ def unwrap_ok(rb, f, bi, a):
             return unwrap_ok(rb, f, bi, a[2][0])
     if a[0] == "some":
         return True, "Some payload"
+    if a[0] in ("phi", "mu"):
+        # the expanded form of `x.map(f)`: `match x { None => None, Some(v) => Some(f(v)) }` is Some exactly when x is
+        raw = [strip(y) for y in (a[4] if a[0] == "phi" else a[1])]
+        sites = [y[1] if y[0] == "defat" else None for y in raw]
+        alts = [strip(y[2]) if y[0] == "defat" else y for y in raw]
+        nones = [i for i, y in enumerate(alts) if y[0] == "adt" and y[1] == "std::option::Option" and y[2] == "None"]
+        somes = [i for i, y in enumerate(alts) if y[0] == "adt" and y[1] == "std::option::Option" and y[2] == "Some"]
+        if len(nones) == 1 and len(somes) == 1 and len(alts) == 2 and sites[nones[0]] and sites[nones[0]][0] == f.key:
+            recv = {x[1] for x in walk(alts[somes[0]]) if isinstance(x, tuple) and x and x[0] == "some" and strip(x[1])[0] == "call"}
+            nb = sites[nones[0]][1]
+            preds = [p for p in f.cfg.pred[nb] if p in f.cfg.reach]
+            if len(recv) == 1 and len(preds) == 1 and f.term(preds[0])["k"] == "switch":
+                from .core import edge_presence
+                d = strip(rb.view.vp.operand(f, f.term(preds[0])["discr"]))
+                rc = next(iter(recv))
+                # the None arm is taken exactly on the absent edge of the switch on that very lookup
+                if d[0] == "discr" and rb.c(d[1]) == rb.c(rc) and edge_presence(d, f.term(preds[0]), nb) == "absent":
+                    ok, why = unwrap_ok(rb, f, bi, rc)
+                    return ok, "Some arm of a match on the lookup: " + why
     return False, "no justification for unwrap of %s" % term_str(a)[:60]
 
 
